@@ -424,8 +424,16 @@ func c02CheckSign(c c02SignCase) h.Result {
 		}
 		batch = append(batch, e)
 	}
+	// One verifier for all the batches of this case, reset in between (a fresh
+	// verifier for every other case): state recycled by Reset must not leak
+	// from one batch into the next.  The order is chosen so that a batch with
+	// cofactor-less entries is followed by a purely cofactored one.
+	sharedBV := ed25519.NewBatchVerifier()
 	runBatch := func(entries []bent, label string) bool {
-		bv := ed25519.NewBatchVerifier()
+		bv := sharedBV.Reset()
+		if len(c.Msg)%2 == 1 {
+			bv = ed25519.NewBatchVerifier()
+		}
 		if c.NoExpand {
 			bv.ForceNoPublicKeyExpansion()
 		}
@@ -495,6 +503,11 @@ func c02CheckSign(c c02SignCase) h.Result {
 		if !runBatch(onlyCustom, "custom-cofactorless-batch") {
 			return r.Result()
 		}
+	}
+
+	// ... and once more the purely cofactored batch on the recycled verifier
+	if !runBatch(batch, "cofactored-batch-after-reset") {
+		return r.Result()
 	}
 
 	// inputs must not have been modified
